@@ -245,6 +245,7 @@ def run(res: Results, idx: Index, tier: str) -> None:
             res.add("R-C06d", "OK" if ok else "VIOLATION", f"{LAX}fori_loop.py:{call.lineno}", key, "trip count derives from params['trip_count']" if ok else f"the Loop trip count `{src(elts[0])}` does not derive from the trip_count parameter", flow.qualname)
     rule_e(res, idx)
     rule_f(res, idx)
+    rule_g(res, idx, tier)
     # R-C06g: results inside loop bodies keep the shape JAX computed (no loop-context axis-0 override)
     from .c08 import rule_i as _aval_shape_rule
     _aval_shape_rule(res, idx, "R-C06g")
@@ -433,3 +434,25 @@ def rule_f(res: Results, idx: Index) -> None:
         res.ok("R-C06f", f"{rel}:{zips[0].lineno}", key, f"`{cond_list}` is built from {sorted(used & state_lists)}, the list appended to the body outputs", f.qualname)
     else:
         res.violation("R-C06f", f"{rel}:{zips[0].lineno}", key, f"the cond jaxpr is evaluated on `{cond_list}` = {'; '.join(src(v, 50) for v in vals)}, which does not contain the state the body outputs ({sorted(state_lists)}): for a vmapped loop the condition is computed on un-masked candidates, so finished examples can switch back on", f.qualname)
+
+
+# ---------------------------------------------------------------------------------------------- R-C06h
+def rule_g(res: Results, idx: Index, tier: str) -> None:
+    """A traced loop / branch body depends on everything its Python callable closes over.  A control-flow plugin that serves
+    traced bodies from a module-level table must key the table by the callable itself (C14 R-C14g decides key completeness,
+    including keys that see the callable only through `__code__` / `type()`); otherwise a second loop whose body differs
+    only in a captured constant is exported with the first loop's body."""
+    res.rule("R-C06h", "control-flow plugins do not serve traced bodies from a memo whose key forgets (part of) the body callable (C14 R-C14g)", floor=4)
+    from . import c14
+    sub = Results("C14", tier)
+    setattr(sub, "_nested_xref", True)
+    c14.rule_g(sub, idx)
+    mods = [LAX + x for x in ("cond.py", "fori_loop.py", "while_loop.py", "scan.py", "_control_flow_utils.py")]
+    for rel in mods:
+        if idx.modules_by_rel().get(rel) is None if hasattr(idx, "modules_by_rel") else idx.module(rel) is None:
+            raise AnalysisError(f"{rel} not found")
+        insts = [i for i in sub.instances if i.rule == "R-C14g" and i.key.startswith(rel + "::")]
+        if not insts:
+            res.ok("R-C06h", f"{rel}:1", f"{rel}::no-body-memo", "no module-level memo table is read and written by the functions of this module", "")
+        for inst in insts:
+            res.add("R-C06h", inst.status, inst.site, f"R-C14g::{inst.key}", f"[C14 R-C14g] {inst.detail}", inst.func)
